@@ -239,7 +239,7 @@ def make_recipe(ctx, k):
         kw = {'max_n': 4, 'min_n': 2, 'coords_as': rng.choice(['coords', 'coords', 'vars'])}
         if conv in ('cf2d', 'shoc_simple'):
             kw['bounds_as'] = 'vars'
-    recipe = G.random_recipe(rng, conv, ctx.tier, **kw)
+    recipe = G.random_recipe(rng, conv, ctx.tier, vary=True, **kw)
     return G.attach_vars(rng, recipe, n_vars=3, max_extra=1, with_nan=True,
                          dtypes=('f8', 'f8', 'f4', 'i4', 'i8', 'u4', 'i4fill', 'i4missing', 'i4fill0'))
 
